@@ -308,9 +308,11 @@ func (s *impl) enter(ctx gorums.ServerCtx, method string, req *puppet.Req) *hand
 	c.Log.Add(Event{Kind: "enter", Server: s.i, Conn: conn, Call: call, Method: method, Token: req.GetToken(),
 		Seq: req.GetSeq(), Tag: req.GetNodeTag(), PayHash: HashBytes(req.GetPayload()), Note: req.GetNote()})
 	hr := &handlerRun{b: b, exited: make(chan struct{})}
+	// the release event is logged BEFORE Release is called: the next handler
+	// can only start after the actual unlock, hence after this event.
 	rel := func(kind string) {
-		ctx.Release()
 		c.Log.Add(Event{Kind: "release", Server: s.i, Conn: conn, Call: call, Method: method, Token: req.GetToken(), Seq: req.GetSeq(), Note: kind})
+		ctx.Release()
 	}
 	switch b.Release {
 	case "early":
@@ -329,13 +331,13 @@ func (s *impl) enter(ctx gorums.ServerCtx, method string, req *puppet.Req) *hand
 		go func() { <-hr.exited; ctx.Release(); ctx.Release() }()
 	case "concurrent":
 		// several goroutines race to release
+		c.Log.Add(Event{Kind: "release", Server: s.i, Conn: conn, Call: call, Method: method, Token: req.GetToken(), Seq: req.GetSeq(), Note: "concurrent"})
 		var wg sync.WaitGroup
 		for k := 0; k < 3; k++ {
 			wg.Add(1)
 			go func() { defer wg.Done(); ctx.Release() }()
 		}
 		wg.Wait()
-		c.Log.Add(Event{Kind: "release", Server: s.i, Conn: conn, Call: call, Method: method, Token: req.GetToken(), Seq: req.GetSeq(), Note: "concurrent"})
 	}
 	return hr
 }
